@@ -126,6 +126,13 @@ structure LLine where
   cat : Cat
 deriving Repr, Inhabited
 
+/-- `FileParser.is_directive`: category `CPP_DIRECTIVE` and `not flushed_line.lstrip(" ").startswith("##")`
+    (a logical line whose first token is `##` is code; before the repair of F-C05-3 it made `parse_file` raise) -/
+def isDirectiveLine (cat : Cat) (text : List Char) : Bool :=
+  cat == .cppDirective && !((text.dropWhile (· == ' ')).take 2 == ['#', '#'])
+
+def LLine.isDirective (l : LLine) : Bool := isDirectiveLine l.cat l.text.toList
+
 structure SrcState where
   cl : CClean
   cur : OSL := {}            -- current_logical_line
